@@ -78,6 +78,12 @@ func (fc *FnCtx) doCall(res ssa.Value, c *ssa.CallCommon, in ssa.Instruction) {
 				names = append(names, n)
 				args = append(args, fc.val(a))
 			}
+			if named, ok := c.Value.Type().(*types.Named); ok && named.Obj().Pkg() != nil && named.Obj().Pkg().Path() != dnsPath {
+				// an interface of another package: its implementations are outside the module, the contract is trusted
+				fc.noteExtern("interface " + con.Name)
+			} else if fc.e.implementations(c) == nil {
+				fc.noteExtern("interface " + con.Name + " (implemented by user code)")
+			}
 			setRes(fc.applyContract(con, names, args, sig, freshRes, pos, fc.callMods(c)))
 			return
 		}
